@@ -38,11 +38,18 @@ type universe struct {
 	forks map[uint64]map[uint64]H // fork diverging at f: heights f.. (fork[f].Prev = hash(truth[f-1]))
 	marked map[uint64]map[uint64]H
 	start uint64                  // from.Height()+1
+	base  uint64                  // lowest height of the true chain
+	last  uint64                  // highest height of the forks
 }
 
 func newUniverse() *universe {
-	u := &universe{truth: map[uint64]H{}, forks: map[uint64]map[uint64]H{}, marked: map[uint64]map[uint64]H{}}
-	for _, h := range vhdr.Chain("a", 1, chainLen, farPast, 10, nil) {
+	return newUniverseAt(1, chainLen, chainLen+8)
+}
+
+// newUniverseAt: the true chain holds the heights base .. base+n-1, forks reach up to last
+func newUniverseAt(base uint64, n int, last uint64) *universe {
+	u := &universe{truth: map[uint64]H{}, forks: map[uint64]map[uint64]H{}, marked: map[uint64]map[uint64]H{}, base: base, last: last}
+	for _, h := range vhdr.Chain("a", base, n, farPast, 10, nil) {
 		u.truth[h.H] = h
 	}
 	return u
@@ -59,8 +66,8 @@ func (u *universe) fork(f uint64) map[uint64]H {
 	if p, ok := u.truth[f-1]; ok {
 		prev = p.Hash()
 	}
-	for h := f; h <= chainLen+8; h++ {
-		x := &vhdr.Header{Chain: "a", H: h, T: farPast + int64(h)*10, Prev: prev, Nonce: 1000 + f}
+	for h := f; h <= u.last && h >= f; h++ {
+		x := &vhdr.Header{Chain: "a", H: h, T: farPast + int64(h-u.base+1)*10, Prev: prev, Nonce: 1000 + f}
 		m[h] = x
 		prev = x.Hash()
 	}
@@ -105,8 +112,8 @@ func (u *universe) markedFork(f uint64) map[uint64]H {
 	if p, ok := u.truth[f-1]; ok {
 		prev = p.Hash()
 	}
-	for h := f; h <= chainLen+8; h++ {
-		x := &vhdr.Header{Chain: "a", H: h, T: farPast + int64(h)*10, Prev: prev, Nonce: 5000 + f}
+	for h := f; h <= u.last && h >= f; h++ {
+		x := &vhdr.Header{Chain: "a", H: h, T: farPast + int64(h-u.base+1)*10, Prev: prev, Nonce: 5000 + f}
 		if h == f {
 			x.T += 3
 		}
